@@ -92,9 +92,12 @@ func genScenarioKind(r *lib.Rng, cp int, i int, kind int, topic string) Case {
 		for _, sn := range slow {
 			g.ops = append(g.ops, Op{K: "unstall", N: sn})
 		}
-		g.ops = append(g.ops, Op{K: "pause"})
+		// let every reader that is still connected drain what it holds (a reader kept with a hole must
+		// have free slots again before the next message, or it would simply be dropped one message later)
+		g.ops = append(g.ops, Op{K: "drainwait"})
 		for k := 0; k < 4; k++ {
 			g.send(w, smallSizes[r.Intn(len(smallSizes))])
+			g.ops = append(g.ops, Op{K: "drainwait"})
 		}
 	case kind == -1:
 		c.Kind = "burst"
